@@ -142,10 +142,14 @@ type writer struct {
 	fin   bool
 }
 
+// pin: one snapshot a full-range query pinned (attributed through the reference count of the table's current
+// snapshot before and after the query passed currentSnapshot) and the journal position at which the driver let
+// the query into the matching snapshot release (a query releases its snapshots in the order it pinned them).
 type pin struct {
-	parts     map[uint64]bool
-	table     string
-	journalAt int
+	parts      map[uint64]bool
+	table      string
+	journalAt  int
+	releasedAt int // -1 = not yet
 }
 
 type query struct {
@@ -158,7 +162,6 @@ type query struct {
 	lo, hi     int64
 	invokeSeq  int
 	retSeq     int
-	readDone   int // journal length when the query was let into its first snapshot release; -1 = not yet
 	holdLeft   int
 	full       bool
 	fin        bool
@@ -263,16 +266,7 @@ type pendingPin struct {
 }
 
 func (s *sim) tolerated(oracle, class string) bool {
-	if s.e.Known(oracle, class) {
-		return true
-	}
-	for _, c := range strings.Split(os.Getenv("C05_TOLERATE"), ",") {
-		if c == oracle+":"+class {
-			s.e.Probe("tolerated:" + c)
-			return true
-		}
-	}
-	return false
+	return s.e.Known(oracle, class) // listed in known-findings.txt: counted, the run keeps checking
 }
 
 func segOf(ts int64) string { return time.UnixMilli(ts).UTC().Format("20060102") }
@@ -363,7 +357,7 @@ func (s *sim) judge(q *query, afterStop bool) {
 		return
 	}
 	if q.err != nil {
-		if afterStop {
+		if afterStop && strings.Contains(q.err.Error(), "segment closed") {
 			e.Probe("reach.query_error_after_stop")
 			e.Event("%s failed after the node was stopped", q.name)
 			e.Note("%s error after stop: %v", q.name, q.err)
@@ -540,13 +534,13 @@ func (s *sim) observe(step int) bool {
 				if p.table != rm.table || !p.parts[rm.id] || p.journalAt > rm.idx {
 					continue
 				}
-				stillReading := (q.readDone < 0 && !q.fin) || (q.readDone >= 0 && rm.idx < q.readDone)
-				if stillReading {
-					e.Fail("part-files", "part-removed-while-pinned", "part %016x of table %s was removed (journal op %d, step %d) while %s, which pinned a snapshot containing it at journal op %d, had not started releasing its snapshots",
+				stillPinned := (p.releasedAt < 0 && !q.fin) || (p.releasedAt >= 0 && rm.idx < p.releasedAt)
+				if stillPinned {
+					e.Fail("part-files", "part-removed-while-pinned", "part %016x of table %s was removed (journal op %d, step %d) while %s, which pinned a snapshot containing it at journal op %d, had not begun to release that snapshot",
 						rm.id, rm.table, rm.idx, step, q.name, p.journalAt)
 					return false
 				}
-				if q.readDone >= 0 {
+				if p.releasedAt >= 0 {
 					e.Probe("reach.pinned_part_removed_after_last_reader")
 				}
 			}
@@ -593,7 +587,7 @@ func (s *sim) observe(step int) bool {
 			return false
 		}
 	}
-	if !s.stopped {
+	if !s.stopped && os.Getenv("C05_NO_SNAPCOUNT") == "" { // (the switch is a drill aid: judge by the queries' answers alone)
 		// what a query pinning now would see: every acknowledged row, no row twice
 		ackedRows, invokedRows := map[string]uint64{}, map[string]uint64{}
 		for _, u := range s.units {
@@ -639,8 +633,10 @@ func (s *sim) observe(step int) bool {
 			}
 		}
 		switch {
+		case len(hit) == 1 && len(hit[0].parts) == 0:
+			pp.q.pinUnknown, pp.q.pins = true, nil // an empty snapshot is released at once: the release order is no longer the pin order
 		case len(hit) == 1:
-			pp.q.pins = append(pp.q.pins, pin{table: hit[0].key, parts: hit[0].fileIDs(), journalAt: pp.journalAt})
+			pp.q.pins = append(pp.q.pins, pin{table: hit[0].key, parts: hit[0].fileIDs(), journalAt: pp.journalAt, releasedAt: -1})
 			e.Probe("reach.query_pin_attributed")
 			for _, p := range simcore.ParkedList() {
 				if actorRank(p.Actor) == 2 && (p.Site == siteMergeSend || p.Site == siteMergeStart) {
@@ -667,10 +663,13 @@ func (s *sim) observe(step int) bool {
 		}
 	}
 	for _, q := range s.queries {
-		if q.fin || q.heldProbe || q.readDone >= 0 {
+		if q.fin || q.heldProbe {
 			continue
 		}
 		for _, p := range q.pins {
+			if p.releasedAt >= 0 {
+				continue
+			}
 			if v := byKey[p.table]; v != nil && !v.busy {
 				cur := v.fileIDs()
 				for _, id := range sortedIDs(p.parts) {
@@ -909,30 +908,17 @@ func scenario(e *simcore.Env, tp *simcore.Tape, g engine) {
 	e.Event("%s flags=%v merge-slots=%d knobs=%s", g.describe(), flags, mergeSlots, knobs)
 
 	spans := []int64{1000, 60_000, 2 * dayMs}
-	// --- phase A: a short history without gates, so that the race starts on a table that already has file parts
+	// --- phase A (prologue of the driver loop below): a short scripted history, so that the race starts on tables that
+	// already have file parts. It runs with the gates armed and the first eligible actor released at every step until
+	// everything (engine loops included) has come to rest: left to the Go scheduler, the start-up handshakes of a new table's
+	// loops and its first introduction resolve in different orders, and the race would begin in different states.
+	var prologue []int // 2 = a writer's batch, 3 = advance by two flush periods
 	for op, nOps := 0, tp.Weighted(1, 2, 2, 2, 1); op < nOps; op++ {
-		e.Step()
-		sleep(time.Duration(tp.Range(1, 3000)) * time.Microsecond)
-		rows, send := g.gen(tp, time.Now().UnixMilli(), spans[tp.Weighted(4, 2, 1)], 12, s.nBatches)
-		us := s.newUnits(rows)
-		var werr error
-		call(func() { werr = send(n) })
-		if werr != nil {
-			e.Fail("ack", "valid-write-not-acknowledged", "history batch of %d rows not acknowledged: %v", len(rows), werr)
-			return
-		}
-		s.acked(us)
-		s.units = append(s.units, us...)
-		e.Event("history batch #%d: %d rows in %d table(s)", s.nBatches-1, len(rows), len(us))
-		s.sample = append(s.sample, fmt.Sprintf("history: write %d rows / %d tables", len(rows), len(us)))
+		prologue = append(prologue, 2)
 		if tp.Weighted(1, 3) == 1 {
-			sleep(flushed)
-			e.AddSim(flushed)
-			e.Event("history advance %s", flushed)
-			s.sample = append(s.sample, "history: advance "+flushed.String())
+			prologue = append(prologue, 3)
 		}
 	}
-	settle()
 
 	// --- phase B: the race
 	aliases := map[string]string{}
@@ -970,12 +956,43 @@ func scenario(e *simcore.Env, tp *simcore.Tape, g engine) {
 	writersLeft := tp.Range(1, 5)
 	queriesLeft := tp.Range(2, 6)
 	advLeft := tp.Range(1, 6)
-	maxSteps := []int{60, 100, 140}[tp.Choose(3)]
-	stopAtEnd := false
+	maxSteps := []int{50, 80, 110}[tp.Choose(3)]
+	// "Stop the node while a query is parked" is an exploration aid only (C05_STOP=1): simnode.Stop closes the engines without
+	// draining in-flight requests first, which a real node does (the gRPC server stops gracefully before the engines), and what a
+	// query released into a closing node returns is decided by the Go scheduler (stream queries pin segment by segment).
+	stopWanted := tp.Weighted(4, 1) == 1 && os.Getenv("C05_STOP") != ""
+	stopDone := false
 	var burstActor string
 	burstLeft := 0
 	idle := 0
 	mergers := map[string]bool{} // actors seen at the merge loop's own gate
+	draining := false
+	inPrologue, raceStart := true, 0
+	startWriter := func(step int, phase string) {
+		time.Sleep(time.Duration(tp.Range(1, 3000)) * time.Microsecond)
+		rows, send := g.gen(tp, time.Now().UnixMilli(), spans[tp.Weighted(4, 2, 2)], 12, s.nBatches)
+		w := &writer{name: fmt.Sprintf("w%d", len(s.writers)), done: make(chan error, 1), units: s.newUnits(rows)}
+		s.units = append(s.units, w.units...)
+		s.writers = append(s.writers, w)
+		e.Event("step %d: %s starts batch #%d at #%d: %d rows in %d table(s)", step, w.name, s.nBatches-1, w.units[0].invokeSeq, len(rows), len(w.units))
+		s.sample = append(s.sample, fmt.Sprintf("%s: %s writes %d rows / %d tables", phase, w.name, len(rows), len(w.units)))
+		go func() {
+			simcore.SetActor(w.name)
+			defer simcore.ClearActor()
+			defer func() {
+				if r := recover(); r != nil {
+					w.done <- fmt.Errorf("panic: %v", firstLine(fmt.Sprint(r)))
+				}
+			}()
+			w.done <- send(n)
+		}()
+	}
+	advance := func(step int, phase string, d time.Duration) {
+		time.Sleep(d)
+		e.AddSim(d)
+		e.Event("step %d: advance %s", step, d)
+		s.sample = append(s.sample, phase+": advance "+d.String())
+	}
 	racing.Store(true)
 	for step := 0; ; step++ {
 		synctest.Wait()
@@ -996,11 +1013,37 @@ func scenario(e *simcore.Env, tp *simcore.Tape, g engine) {
 		if !s.observe(step) {
 			return
 		}
-		if step >= maxSteps {
-			e.Probe("reach.race_step_limit")
+		if stopDone {
 			break
 		}
+		if !inPrologue && !draining && step >= raceStart+maxSteps {
+			// Step limit: no new actors, no clock advances; whoever is in flight finishes gate by gate (gates stay armed:
+			// released together, the Go scheduler would decide who wins), always the first eligible actor in canonical order.
+			e.Probe("reach.race_step_limit")
+			draining = true
+		}
+		if draining && s.inFlightQ() == 0 && s.inFlightW() == 0 {
+			break
+		}
+		if step > raceStart+maxSteps+800 {
+			e.Fail("harness", "drain-stuck", "%d quer(ies) and %d writer(s) still in flight %d steps after the step limit", s.inFlightQ(), s.inFlightW(), step-maxSteps)
+			return
+		}
 		parked := canonParked()
+		if e.Verbose {
+			var l []string
+			for _, p := range parked {
+				l = append(l, p.Actor+"@"+p.Site)
+			}
+			e.Note("step %d parked: %s", step, strings.Join(l, " "))
+			segs := map[string]bool{}
+			for _, v := range s.views {
+				segs[v.seg] = true
+			}
+			for _, seg := range simcore.SortedKeys(segs) {
+				e.Note("    %s", s.describeSeg(seg))
+			}
+		}
 		introBusy, mergePending, flushPending := false, false, false
 		var heldQ *query
 		for _, p := range parked {
@@ -1032,6 +1075,9 @@ func scenario(e *simcore.Env, tp *simcore.Tape, g engine) {
 			}
 		}
 		for _, p := range parked {
+			if p.Site == "lock-wait" { // retried at the top of every step
+				continue
+			}
 			// Go's select picks at random among ready cases, so no engine loop may ever find two of them ready.
 			// (1) While an introducer is in the middle of a publication nobody is let into a send to it, and nobody who
 			// has sent continues past the introducer's own wake-ups (the flusher's epoch watcher).
@@ -1055,22 +1101,62 @@ func scenario(e *simcore.Env, tp *simcore.Tape, g engine) {
 			}
 			opts = append(opts, option{p: p, w: w})
 		}
-		if queriesLeft > 0 && s.inFlightQ() < 3 {
+		if inPrologue && len(opts) == 0 {
+			switch {
+			case s.inFlightW() > 0: // waits for a timer
+				idle++
+				if idle > 50 {
+					e.Fail("harness", "prologue-stuck", "a history batch neither finished nor parked")
+					return
+				}
+				time.Sleep(100 * time.Millisecond)
+			case len(prologue) > 0:
+				op := prologue[0]
+				prologue = prologue[1:]
+				e.Step()
+				if op == 2 {
+					startWriter(step, "history")
+				} else {
+					advance(step, "history", flushed)
+				}
+			default:
+				inPrologue, raceStart = false, step+1
+				e.Event("step %d: the race begins", step)
+			}
+			continue
+		}
+		if draining {
+			queriesLeft, writersLeft, advLeft, stopWanted = 0, 0, 0, false
+		}
+		if !inPrologue && queriesLeft > 0 && s.inFlightQ() < 3 {
 			w := 2
 			if mergePending || flushPending {
 				w = 8 // maintenance output written, not yet introduced: now a query
 			}
 			opts = append(opts, option{kind: 1, w: w})
 		}
-		if writersLeft > 0 && s.inFlightW() < 2 {
+		if !inPrologue && writersLeft > 0 && s.inFlightW() < 2 {
 			opts = append(opts, option{kind: 2, w: 2})
 		}
-		if advLeft > 0 {
+		if !inPrologue && advLeft > 0 {
 			w := 1
 			if heldQ != nil {
 				w = 4
 			}
 			opts = append(opts, option{kind: 3, w: w})
+		}
+		if stopWanted && s.inFlightW() == 0 && s.inFlightQ() > 0 {
+			// offered only while every query in flight is parked behind its pins (at its first block read or at a release):
+			// what it returns is then decided, whatever order the closing loops take
+			behind := 0
+			for _, p := range parked {
+				if actorRank(p.Actor) == 0 && (isHold(p.Site) || p.Site == siteSnapDecRef) {
+					behind++
+				}
+			}
+			if behind == s.inFlightQ() {
+				opts = append(opts, option{kind: 4, w: 3})
+			}
 		}
 		if heldQ != nil {
 			heldQ.holdLeft--
@@ -1088,6 +1174,9 @@ func scenario(e *simcore.Env, tp *simcore.Tape, g engine) {
 			continue
 		}
 		c := -1
+		if draining || inPrologue {
+			c, burstLeft = 0, 0
+		}
 		if burstLeft > 0 {
 			for i, o := range opts {
 				if o.kind == 0 && o.p.Actor == burstActor {
@@ -1114,7 +1203,7 @@ func scenario(e *simcore.Env, tp *simcore.Tape, g engine) {
 		case 1:
 			queriesLeft--
 			time.Sleep(time.Duration(tp.Range(1, 3000)) * time.Microsecond)
-			q := &query{name: fmt.Sprintf("q%d", len(s.queries)), done: make(chan struct{}), readDone: -1, full: true, holdLeft: []int{0, 4, 10, 25}[tp.Weighted(2, 2, 3, 2)]}
+			q := &query{name: fmt.Sprintf("q%d", len(s.queries)), done: make(chan struct{}), full: true, holdLeft: []int{0, 4, 10, 25}[tp.Weighted(2, 2, 3, 2)]}
 			q.lo, q.hi = s.fullRange()
 			if len(s.known) > 1 && tp.Weighted(3, 1) == 1 {
 				a, b := s.pickTs(tp), s.pickTs(tp)
@@ -1144,30 +1233,25 @@ func scenario(e *simcore.Env, tp *simcore.Tape, g engine) {
 			}()
 		case 2:
 			writersLeft--
-			time.Sleep(time.Duration(tp.Range(1, 3000)) * time.Microsecond)
-			rows, send := g.gen(tp, time.Now().UnixMilli(), spans[tp.Weighted(4, 2, 2)], 12, s.nBatches)
-			w := &writer{name: fmt.Sprintf("w%d", len(s.writers)), done: make(chan error, 1), units: s.newUnits(rows)}
-			s.units = append(s.units, w.units...)
-			s.writers = append(s.writers, w)
-			e.Event("step %d: %s starts batch #%d at #%d: %d rows in %d table(s)", step, w.name, s.nBatches-1, w.units[0].invokeSeq, len(rows), len(w.units))
-			s.sample = append(s.sample, fmt.Sprintf("race: %s writes %d rows / %d tables", w.name, len(rows), len(w.units)))
-			go func() {
-				simcore.SetActor(w.name)
-				defer simcore.ClearActor()
-				defer func() {
-					if r := recover(); r != nil {
-						w.done <- fmt.Errorf("panic: %v", firstLine(fmt.Sprint(r)))
-					}
-				}()
-				w.done <- send(n)
-			}()
+			startWriter(step, "race")
+		case 4:
+			nq := s.inFlightQ()
+			e.Event("step %d: stop the node (%d quer(ies) parked behind their pins)", step, nq)
+			e.Probe("reach.stop_while_query_parked")
+			s.sample = append(s.sample, fmt.Sprintf("race: stop the node, %d queries parked", nq))
+			s.stopped, stopDone = true, true
+			racing.Store(false)
+			s.pending = nil
+			for _, q := range s.queries {
+				if !q.fin {
+					q.pins, q.pinUnknown = nil, true
+				}
+			}
+			call(live.Stop)
+			live = nil
 		case 3:
 			advLeft--
-			d := []time.Duration{time.Duration(flushSec) * time.Second, flushed, 300 * time.Millisecond}[tp.Weighted(3, 2, 1)]
-			time.Sleep(d)
-			e.AddSim(d)
-			e.Event("step %d: advance %s", step, d)
-			s.sample = append(s.sample, "race: advance "+d.String())
+			advance(step, "race", []time.Duration{time.Duration(flushSec) * time.Second, flushed, 300 * time.Millisecond}[tp.Weighted(3, 2, 1)])
 		default:
 			p := o.p
 			if actorRank(p.Actor) == 0 {
@@ -1176,8 +1260,20 @@ func scenario(e *simcore.Env, tp *simcore.Tape, g engine) {
 				case q == nil:
 				case p.Site == siteCur && q.full && !q.pinUnknown:
 					s.pending = &pendingPin{q: q, before: s.views, journalAt: simos.Len()}
-				case p.Site == siteSnapDecRef && q.readDone < 0:
-					q.readDone = simos.Len()
+				case p.Site == siteSnapDecRef && q.full && !q.pinUnknown:
+					k := -1
+					for i := range q.pins {
+						if q.pins[i].releasedAt < 0 {
+							k = i
+							break
+						}
+					}
+					if k < 0 { // a release without an attributed pin
+						q.pinUnknown, q.pins = true, nil
+						e.Probe("reach.query_release_unattributed")
+					} else {
+						q.pins[k].releasedAt = simos.Len()
+					}
 				}
 				if isHold(p.Site) && len(q.pins) > 0 {
 					e.Probe("reach.query_parked_between_pin_and_first_read")
@@ -1187,13 +1283,12 @@ func scenario(e *simcore.Env, tp *simcore.Tape, g engine) {
 			simcore.Release(p)
 		}
 	}
-	_ = stopAtEnd
 
 	// --- phase C: everybody finishes (gates off), maintenance quiesces
 	racing.Store(false)
 	s.pending = nil
 	for _, q := range s.queries {
-		if !q.fin && q.readDone < 0 { // its release is no longer observed
+		if !q.fin { // its releases are no longer observed
 			q.pins, q.pinUnknown = nil, true
 		}
 	}
@@ -1220,14 +1315,27 @@ func scenario(e *simcore.Env, tp *simcore.Tape, g engine) {
 			e.Nontrivial()
 		}
 	}
-	sleep(flushed)
-	sleep(flushed)
-	e.AddSim(2 * flushed)
-	if !s.observe(-1) {
+	if stopDone {
+		// the node is down (what a graceful stop leaves on disk is the subject of C03/C04: a manifest may name memory parts)
+		e.Event("final (stopped): %d rows written", len(s.known))
+		e.SetSample(map[string]any{"engine": g.kind(), "flags": flags, "knobs": knobs, "batches": s.nBatches, "queries": len(s.queries), "stopped": true, "ops": s.sample})
 		return
 	}
+	// maintenance quiesces: a merge may enable the next one, and a flusher that saw an introduction holds a snapshot for
+	// one more flush period; wait until a whole period passes without any publication and without any extra reference
+	for i := 0; i < 10; i++ {
+		before := s.epochSig()
+		sleep(flushed)
+		e.AddSim(flushed)
+		if !s.observe(-1) {
+			return
+		}
+		if i > 0 && s.epochSig() == before && s.refsIdle() {
+			break
+		}
+	}
 	// the final answer: exactly the acknowledged rows
-	fq := &query{name: "final", full: true, readDone: -1}
+	fq := &query{name: "final", full: true}
 	fq.lo, fq.hi = s.fullRange()
 	s.seq++
 	fq.invokeSeq = s.seq
@@ -1290,7 +1398,9 @@ func scenario(e *simcore.Env, tp *simcore.Tape, g engine) {
 		}
 	}
 	nRemoved := len(s.removed)
-	e.Event("final: %d rows, %d table(s), %d part(s) on disk, %d part(s) removed, %d flush and %d merge introduction(s) observed", len(s.known), len(s.views), nParts, nRemoved, s.nFlush, s.nMerge)
+	// (how many flushes and merges the loops needed once all gates were open is decided by the Go scheduler: kept out of the canonical history)
+	e.Event("final: %d rows in %d table(s): disk state equals the final snapshots, reference counts idle", len(s.known), len(s.views))
+	e.Note("%d part(s) on disk, %d part(s) removed, %d flush and %d merge introduction(s) observed", nParts, nRemoved, s.nFlush, s.nMerge)
 	if s.nMerge > 0 {
 		e.Probe("reach.merge_happened")
 	}
@@ -1301,12 +1411,36 @@ func scenario(e *simcore.Env, tp *simcore.Tape, g engine) {
 		"parts_removed": nRemoved, "ops": s.sample})
 }
 
+// fullRange covers every row that exists or can still be generated (batches reach at most two days back): every
+// non-empty snapshot a full-range query pins has parts in range, so the query keeps it until its result is released.
 func (s *sim) fullRange() (int64, int64) {
 	lo := time.Now().UnixMilli()
 	for _, r := range s.known {
 		lo = min(lo, r.ts)
 	}
-	return lo - dayMs, time.Now().UnixMilli() + 3*dayMs
+	return lo - 5*dayMs, time.Now().UnixMilli() + 3*dayMs
+}
+
+func (s *sim) epochSig() string {
+	var sb strings.Builder
+	for _, v := range s.views {
+		fmt.Fprintf(&sb, "%s=%x;", v.key, v.epoch)
+	}
+	return sb.String()
+}
+
+func (s *sim) refsIdle() bool {
+	for _, v := range s.views {
+		if v.busy || (v.has && v.ref != 1) {
+			return false
+		}
+		for _, p := range v.parts {
+			if p.ref != 1 || p.mem {
+				return false
+			}
+		}
+	}
+	return true
 }
 
 func (s *sim) pickTs(tp *simcore.Tape) int64 {
